@@ -632,7 +632,7 @@ int disasm_riscv_comp(
         case OP_COMP_RD:
           snprintf(instruction, length, "%s %s",
             instr,
-            riscv_reg_names[rd + 8]);
+            riscv_reg_names[rs1 + 8]);
           return 2;
         case OP_COMP_RD_RS2:
           snprintf(instruction, length, "%s %s, %s",
